@@ -426,11 +426,14 @@ class GeneralSurrogate:
         '''
         Stores surrogate training data from dict and trains models
         '''
+        #The models belong to the training data that is replaced here, so only phases in the new data keep a model
         self.drivingForceData = data['drivingForce']
+        self.drivingForceModels = {}
         for ph in self.drivingForceData:
             self._fitDrivingForce(ph)
 
         self.diffusivityData = data['diffusivity']
+        self.diffusivityModels = {}
         for ph in self.diffusivityData:
             self._fitDiffusivity(ph)
         
@@ -580,6 +583,7 @@ class BinarySurrogate(GeneralSurrogate):
         '''
         super()._processSurrogateData(data)
         self.interfacialCompositionData = data['interfacialComposition']
+        self.interfacialCompositionModels = {}
         for ph in self.interfacialCompositionData:
             self._fitInterfacialComposition(ph)
         
@@ -798,5 +802,6 @@ class MulticomponentSurrogate(GeneralSurrogate):
         '''
         super()._processSurrogateData(data)
         self.curvatureData = data['curvature']
+        self.curvatureModels = {}
         for ph in self.curvatureData:
             self._fitCurvature(ph)
